@@ -84,7 +84,13 @@ type c15Scenario struct {
 	RootsNil    bool          // the caller names no TSA roots at all (SignRequest.TSARootCAs == nil)
 	PriorSign   bool          // the same envelope object has already signed once, with a valid timestamp
 	StubLatency time.Duration // the stub revocation validator takes this long (fake time)
-	StubPanic   int           // the stub validator panics: 1 with a string, 2 with a struct value, 3 with an error value
+	// a second, honest timestamped signing (own envelope object, own signer,
+	// own all-OK validator, same authority) overlaps the measured one
+	Companion    bool
+	CompOffsetMs int           // >= 0: the companion starts first and the measured signing this much later; < 0: the other way round
+	CompRevLat   time.Duration // the companion's validator takes this long
+	KeySpecLat   time.Duration // every KeySpec() call of the measured signing's remote signer takes this long
+	StubPanic    int           // the stub validator panics: 1 with a string, 2 with a struct value, 3 with an error value
 }
 
 func profC15Rev() *RevProfile {
@@ -194,6 +200,23 @@ func genC15(t *Tape) *c15Scenario {
 			sc.StubVec = append(sc.StubVec, v)
 		}
 	}
+	if t.Bool(14) {
+		sc.Companion = true
+		sc.CompOffsetMs = []int{0, 1, 20, 150, 900, 2500}[t.Choose(6)] + t.Choose(40)
+		if t.Bool(50) {
+			sc.CompOffsetMs = -sc.CompOffsetMs
+		}
+		sc.CompRevLat = []time.Duration{0, 400 * time.Millisecond, 3 * time.Second}[t.Choose(3)]
+		if sc.Remote {
+			sc.KeySpecLat = []time.Duration{0, 40 * time.Millisecond, 300 * time.Millisecond}[t.Weighted(20, 40, 40)]
+			if sc.KeySpecLat > 0 && t.Bool(70) {
+				// the companion runs from start to end inside the k-th KeySpec()
+				// call of the measured signing's remote signer
+				l := int(sc.KeySpecLat / time.Millisecond)
+				sc.CompOffsetMs = -(l*t.Choose(6) + l/2)
+			}
+		}
+	}
 	return sc
 }
 
@@ -259,6 +282,8 @@ type TSAServed struct {
 }
 
 type c15Obs struct {
+	CompOK            bool   // the companion signing succeeded
+	CompErr           string // ... or why not
 	Bytes             []byte
 	Err               error
 	Panicked          bool
@@ -446,6 +471,63 @@ func (sc *c15Scenario) exec(obs *c15Obs) {
 		}()
 		nt.dropPendingExcept(x, obs.XRetry)
 	}
+	var compDone chan struct{}
+	if sc.Companion {
+		const compCaller = 900
+		nt.Plan(compCaller, &Exchange{URL: "http://tsa.sim/ts", Kind: "tsa", Latency: 30 * time.Millisecond, ReadCap: 1 << 20,
+			Serve: tsaServeSkew(TBValid, tsaLeaf, embed, otherKey, 0)})
+		compChain, err := NewSignerChain(ka, "ec256", "companion", Epoch.Add(-24*time.Hour), Epoch.Add(365*24*time.Hour))
+		if err != nil {
+			obs.Harness = err.Error()
+			return
+		}
+		cls, err := signature.NewLocalSigner(compChain.Certs, compChain.Leaf.Key.Priv)
+		if err != nil {
+			obs.Harness = "companion signer: " + err.Error()
+			return
+		}
+		compEnv, err := signature.NewEnvelope(mediaType(sc.Format))
+		if err != nil {
+			obs.Harness = err.Error()
+			return
+		}
+		compRoots := x509.NewCertPool()
+		compRoots.AddCert(w.Certs[len(w.Certs)-1].C.X)
+		var okVec []int
+		for range w.Certs {
+			okVec = append(okVec, int(result.ResultOK))
+		}
+		compReq := &signature.SignRequest{Payload: signature.Payload{ContentType: payloadContentType, Content: testPayload(9)}, SigningTime: time.Now(),
+			SigningScheme: signature.SigningSchemeX509, Signer: cls, Timestamper: timestamper, TSARootCAs: compRoots,
+			TSARevocationValidator: &stubValidator{vec: okVec, lat: sc.CompRevLat}}
+		compDone = make(chan struct{})
+		lead := time.Duration(0)
+		if sc.CompOffsetMs < 0 {
+			lead = time.Duration(-sc.CompOffsetMs)*time.Millisecond + 30*time.Microsecond
+		}
+		go func() {
+			defer close(compDone)
+			defer func() {
+				if r := recover(); r != nil {
+					obs.CompErr = fmt.Sprint("panic: ", r)
+				}
+			}()
+			if lead > 0 {
+				time.Sleep(lead)
+			}
+			b, err := compEnv.Sign(compReq.WithContext(WithCaller(context.Background(), compCaller)))
+			if err != nil {
+				obs.CompErr = err.Error()
+			}
+			obs.CompOK = err == nil && b != nil
+		}()
+		if sc.CompOffsetMs >= 0 {
+			time.Sleep(time.Duration(sc.CompOffsetMs)*time.Millisecond + 30*time.Microsecond)
+		}
+		if obs.Signer != nil {
+			obs.Signer.KeySpecLatency = sc.KeySpecLat
+		}
+	}
 	obs.TStart = time.Now()
 	func() {
 		defer func() {
@@ -456,6 +538,9 @@ func (sc *c15Scenario) exec(obs *c15Obs) {
 		obs.Bytes, obs.Err = env.Sign(req.WithContext(ctx))
 	}()
 	obs.TReturn = time.Now()
+	if compDone != nil {
+		<-compDone
+	}
 	// what the object shows afterwards
 	func() {
 		defer func() {
@@ -549,6 +634,12 @@ func hashOIDName(o asn1.ObjectIdentifier) string {
 
 func evalC15(sc *c15Scenario, obs *c15Obs, rc *ruleCtx) {
 	w := sc.Rev.Worlds[0]
+	if sc.Companion {
+		rc.st.Probes["c15_overlapping_honest_signing"]++
+		if obs.CompOK {
+			rc.st.Probes["c15_overlapping_honest_signing_succeeded"]++
+		}
+	}
 	active := sc.Scheme == 0 && !sc.NoTimestamp
 	desc := fmt.Sprintf("format=%s key=%s remote=%v tsa=%s fault=%s chain_defect=%s rev=%d", []string{"jws", "cose"}[sc.Format], sc.KeyKind, sc.Remote, tsaBehaviourNames[sc.Behaviour], sc.Fault, tsaDefectNames[w.TSADefect], sc.RevMode)
 	if obs.Panicked {
@@ -725,7 +816,7 @@ func describeC15(sc *c15Scenario) any {
 	return map[string]any{"format": []string{"jws", "cose"}[sc.Format], "key": sc.KeyKind, "remote_signer": sc.Remote, "scheme": []string{"notary.x509", "notary.x509.signingAuthority"}[sc.Scheme],
 		"timestamper": !sc.NoTimestamp, "tsa_behaviour": tsaBehaviourNames[sc.Behaviour], "tsa_http_fault": sc.Fault.String(), "tsa_latency_ms": sc.Latency.Milliseconds(), "tsa_clock_skew_s": sc.GenSkew.Seconds(),
 		"tsa_timeout_ms": sc.Timeout.Milliseconds(), "cancel": sc.Cancel, "cancel_ms": sc.CancelMs, "tsa_chain_len": len(w.Certs), "tsa_chain_defect": tsaDefectNames[w.TSADefect], "object_signed_before_with_timestamp": sc.PriorSign, "stub_validator_latency_ms": sc.StubLatency.Milliseconds(), "caller_roots_nil": sc.RootsNil, "host_store_trusts_tsa_root": w.UseSysRoot,
-		"revocation_mode": []string{"none", "stub_vector", "real_validator"}[sc.RevMode], "stub_vector": sc.StubVec, "stub_error": sc.StubErr, "stub_panics_with": []string{"-", "string", "struct value", "error value"}[sc.StubPanic], "tsa_chain_sources": describeRev(sc.Rev)}
+		"revocation_mode": []string{"none", "stub_vector", "real_validator"}[sc.RevMode], "stub_vector": sc.StubVec, "stub_error": sc.StubErr, "overlapping_honest_signing": sc.Companion, "companion_offset_ms": sc.CompOffsetMs, "companion_validator_latency_ms": sc.CompRevLat.Milliseconds(), "remote_signer_keyspec_latency_ms": sc.KeySpecLat.Milliseconds(), "stub_panics_with": []string{"-", "string", "struct value", "error value"}[sc.StubPanic], "tsa_chain_sources": describeRev(sc.Rev)}
 }
 
 func runC15(t *Tape, st *Stats, tier string) *RunResult {
